@@ -28,7 +28,7 @@ def run(chk, want=("enc", "dec")):
     nsch, nval = (70, 22) if quick else (1200, 34)
     broken = chk.proof_obligations(["Corr/Serde.vo"])
     chk.coverage["rule"] = (
-        "schemas from the serde profile (every constructor, depth<=3, widths 1..64, forced sub-byte fields, ids shuffled), "
+        "schemas from the serde profile (every constructor, depth<=3, widths 1..64, forced sub-byte fields, arrays of sub-byte elements with up to 33 elements, ids shuffled), "
         "rendered to FCP text and parsed by the real front end; boundary-biased in-range values; "
         "each case = encode + decode of its output, both compared with the Coq model; "
         "non-trivial = value has >= 2 leaves; distinct = (schema text, struct, value)")
